@@ -47,6 +47,15 @@ def _parse(case, obs):
 def _judge(op, exp, o):
     """None if observation o of operation op meets expectation exp, else a reason."""
     name = OPNAME.get(op[0], op[0])
+    if isinstance(o, list) and len(o) == 3 and o[0] == "again":
+        # the runner evaluates every call twice on the same schema instance (all the other calls of the case in between)
+        # and reports (again FIRST SECOND) where an error is involved and the two differ
+        def _p(x):
+            return _path_text(_segs(x[2])) if isinstance(x, list) and len(x) == 3 and x[0] == "err" else _show(x, 200)
+        want = "accepted" if exp == "ok" else "a constraint error with the path %s" % _path_text(_segs(exp[3:]))
+        return ("%s of the SAME value gives different answers within one process: the first evaluation returned %s, the second "
+                "(after the other calls of this case) %s; the property demands %s each time - the error of a rejection must not "
+                "depend on earlier rejections - value %s" % (name, _p(o[1]), _p(o[2]), want, _show(op[1])))
     if exp == "ok":
         if isinstance(o, list) and o and o[0] == "ok":
             return None
@@ -185,7 +194,15 @@ def register(props):
                 "channel, an unsigned integer above MaxInt64) for Unserialize on the raw form and for Validate and Serialize on the native form; "
                 "35 % of the properties (60 % inside one-of members) carry display data (a named property's errors are re-wrapped on a "
                 "code path of their own); half of the one-property objects are written in the single-property shorthand (the value of "
-                "the property instead of a map) at any depth, in the raw form. "
+                "the property instead of a map) at any depth, in the raw form; integer and int-enum map keys - with units (bytes, seconds) "
+                "and without - are written, 60 % of the time, as a TEXT that is not the decimal text of the key's value ('01', '+1', ' 1', "
+                "'1kB', '2 kilobytes', '1m30s'): the expected segment of a fault below such a key is the key AS WRITTEN in the value at "
+                "hand (the raw text for Unserialize, the converted key for Validate / Serialize); 12 % of the properties are DISABLED "
+                "(half of them without a stated reason), absent from the valid input, and 'the disabled property is used' is a "
+                "corruption of its own (Unserialize; path = the property); a blank text is among the wrong-type corruptions of every "
+                "number and bool. EVERY call of a case is evaluated TWICE on the same schema instance in the same process - the whole "
+                "list, then the whole list again - and an error that differs between the two evaluations is reported as such "
+                "(history-independence of error paths: an error value shared between calls and extended in place accumulates segments). "
                 "c17struct: the same machinery on STRUCT-MAPPED objects (NewStructMappedObjectSchema[T] and [*T] over the struct family "
                 "of xstruct_types.go - scalar, pointer, nested struct, pointer-to-struct, slices / maps of structs and of pointers, "
                 "embedded struct, `any` and map-based members, through scopes and references; every property id is a json tag that "
